@@ -115,6 +115,12 @@ META = {
                      "plus syntactic obligations on the loader's structure and a global-state frame scan.",
                 note="Contract-based verification does not apply to the loader itself (exec/eval of option-file text, configparser, dict subclass with symbolic string keys): outside the "
                      "language fragment of the verifier; see DESIGN.md. The bound: option values are one tweak per option, D <= 4, 4 instances per order."),
+    "C09": dict(level="other",
+                text="A stated subset of crash freedom as safety obligations on the real search-step functions (no IndexError, no UnboundLocalError, no undeclared exception class, for every "
+                     "outcome of the candidate filter); the property as a whole (optimize() returns for every valid problem in every mode) is only "
+                     "observed on full runs with rare internal histories forced (bounded).",
+                note="Not a proof of C09: exceptions raised inside NumPy, SciPy and gpyreg, KeyError on dictionaries and value-kind AttributeErrors are not modelled by the verifier. "
+                     "One recorded finding (budget not above the initial design) remains."),
     "C04": dict(level="proof",
                 text="For deterministic targets the returned point is a logged evaluation with exactly the logged value and no logged value is lower: an invariant "
                      "(incumbent logged, minimal, fval == yval, fsd == 0) proved for the initial design, every search step, every poll loop iteration and the main loop, "
